@@ -1491,11 +1491,44 @@ impl<T: PPGEvaluatorStrategy> PPGEvaluator<T> {
                                 self.gen
                             );
                         }
+                        // a validly skipped Output upstream can turn into an upstream
+                        // failure late (above), when its downstreams are already past
+                        // NotReady. Those that have not started yet are upstream failed...
+                        JobState::Ephemeral(JobStateEphemeral::FinishedSkipped)
+                        | JobState::Ephemeral(JobStateEphemeral::ReadyButDelayed) => {
+                            set_node_state!(
+                                j,
+                                JobState::Ephemeral(JobStateEphemeral::FinishedUpstreamFailure),
+                                self.gen
+                            );
+                        }
+                        JobState::Always(JobStateAlways::ReadyToRun) => {
+                            self.jobs_ready_to_run.remove(&j.job_id);
+                            set_node_state!(
+                                j,
+                                JobState::Always(JobStateAlways::FinishedUpstreamFailure),
+                                self.gen
+                            );
+                        }
+                        JobState::Output(JobStateOutput::ReadyToRun) => {
+                            self.jobs_ready_to_run.remove(&j.job_id);
+                            set_node_state!(
+                                j,
+                                JobState::Output(JobStateOutput::FinishedUpstreamFailure),
+                                self.gen
+                            );
+                        }
+                        JobState::Ephemeral(JobStateEphemeral::ReadyToRun(_)) => {
+                            self.jobs_ready_to_run.remove(&j.job_id);
+                            set_node_state!(
+                                j,
+                                JobState::Ephemeral(JobStateEphemeral::FinishedUpstreamFailure),
+                                self.gen
+                            );
+                        }
+                        // ...and those that are running or done stay what they are.
                         _ => {
-                            return Err(PPGEvaluatorError::InternalError(format!(
-                                "unexpected was 7 {:?}",
-                                j
-                            )))
+                            propagate = false;
                         }
                     }
                     if propagate {
